@@ -1298,7 +1298,8 @@ struct ProxyEngine : Engine
 			"stream cut at generated positions (whole, every k bytes, around blank lines, inside request lines) with pauses; MTU 8-9000, latency 0-200 ms, "
 			"bandwidth 20 kB/s-inf, lookup latency 0-2 s. Swarm classes: plain, client leaves early, overlapping clients, several origins on one connection, "
 			"stop() early or mid-session, malformed-heavy. Every request reaching an origin is checked on arrival, every byte reaching a client on arrival, "
-			"completeness at quiescence. distinct = distinct shape hash; non-trivial = at least two requests reached origins and at least one reply was relayed in full";
+			"completeness at quiescence. Malformed requests include URIs whose port is empty, a word or larger than any integer (503 or close, nothing else); no exception may "
+			"leave run(); one scenario class pipelines failing requests over a slow tiny-segment path while the next client waits. distinct = distinct shape hash; non-trivial = at least two requests reached origins and at least one reply was relayed in full";
 	}
 	int64_t budget(std::string const&, int tier) const override { return tier ? 60000 : 4000; }
 	std::vector<std::string> stub_components() const override
